@@ -35,7 +35,7 @@ Name(n) == CASE n \in {"root", "aaf"} -> "application/octet-stream"
 CharsetBearing == {"txt", "html", "xml"}
 
 \* inputs: one sample per leaf class; the class names the node the sample ends on in the initial tree
-Classes == Nodes \ {"root", "ole", "mp4"}
+Classes == Nodes \ {"root", "ole"}     \* the mp4 and qt samples share their first eight bytes (box size + "ftyp")
 RECURSIVE PathTo(_)
 PathTo(n) == IF n = "root" THEN <<"root">> ELSE Append(PathTo(Parent(n)), n)      \* root first
 
